@@ -132,10 +132,13 @@ def build_case(cid, rng, dynamic, force_async=False, no_send=False, probes=False
             tgt = targets[(k + rng.randint(0, 1)) % ntargets] if k else targets[rng.randrange(ntargets)]
             if k == 1 and tgt == apps[0][1]:
                 tgt = [x for x in targets if x != apps[0][1]][0]
-            L.append("pub struct App%d { pub tag: u32 }" % k)
+            # half of the applications are `Sync` but not `Send` (they hold a lock guard): static delegation asks `Sync` of an
+            # application only where a method is async, and `Send` never
+            guard = rng.random() < 0.5 and not any("Send" in x for x in t.supers)
+            L.append("pub struct App%d { pub tag: u32%s }" % (k, ", pub guard: ::core::option::Option<::std::sync::MutexGuard<'static, ()>>" if guard else ""))
             L += [x.replace("APP", "App%d" % k) for x in leaf_impls]
             L.append("impl DelegateTr<Self> for App%d { type Target = %s; }" % (k, tgt))
-            apps.append(("App%d" % k, tgt, "App%d { tag: %d }" % (k, k)))
+            apps.append(("App%d" % k, tgt, "App%d { tag: %d%s }" % (k, k, ", guard: ::core::option::Option::None" if guard else "")))
     else:
         sync = " + ::core::marker::Sync" if has_async else ""
         L.append("pub struct AppD { pub t: ::std::boxed::Box<dyn TrImpl<AppD> + ::core::marker::Send + ::core::marker::Sync>, pub decoy: ::std::boxed::Box<dyn TrImpl<AppD> + ::core::marker::Send + ::core::marker::Sync> }")
